@@ -60,31 +60,34 @@ ColVal(tup, tabs, t, c) ==
     ELSE IF c = "k" THEN RowK(tabs[t][tup[t]]) ELSE RowV(tabs[t][tup[t]])
 OpVal(o, tup, tabs) == IF o.t = 0 THEN o.v ELSE ColVal(tup, tabs, o.t, o.c)
 
-\* SQL comparison: UNKNOWN as soon as one side is NULL
-Truth(a, tup, tabs) ==
+\* SQL comparison: UNKNOWN as soon as one side is NULL.
+\* (nn = TRUE is the deviation null_eq_null: two NULLs compare as equal values; nn = FALSE everywhere in the reference)
+Truth(a, tup, tabs, nn) ==
     LET x == OpVal(a.l, tup, tabs)
         y == OpVal(a.r, tup, tabs)
     IN CASE a.op = "isnull"  -> IF x = N THEN "T" ELSE "F"
          [] a.op = "notnull" -> IF x = N THEN "F" ELSE "T"
+         [] nn /\ x = N /\ y = N -> IF a.op \in {"eq", "le"} THEN "T" ELSE "F"
          [] x = N \/ y = N   -> "U"
          [] a.op = "eq" -> IF x = y THEN "T" ELSE "F"
          [] a.op = "ne" -> IF x # y THEN "T" ELSE "F"
          [] a.op = "lt" -> IF x < y THEN "T" ELSE "F"
          [] a.op = "le" -> IF x <= y THEN "T" ELSE "F"
 \* conjunction of a sequence of atoms (empty = TRUE)
-Conj(atoms, tup, tabs) ==
-    LET ts == {Truth(atoms[i], tup, tabs) : i \in DOMAIN atoms}
+Conj(atoms, tup, tabs, nn) ==
+    LET ts == {Truth(atoms[i], tup, tabs, nn) : i \in DOMAIN atoms}
     IN IF "F" \in ts THEN "F" ELSE IF "U" \in ts THEN "U" ELSE "T"
 \* ON and WHERE keep a row only when the condition is TRUE (not FALSE, not UNKNOWN)
-Holds(atoms, tup, tabs) == Conj(atoms, tup, tabs) = "T"
+HoldsX(atoms, tup, tabs, nn) == Conj(atoms, tup, tabs, nn) = "T"
+Holds(atoms, tup, tabs) == HoldsX(atoms, tup, tabs, FALSE)
 
 (* ------------------------------------------------------------------ *)
 (* one join step                                                       *)
 (* ------------------------------------------------------------------ *)
 Zeros(m) == [i \in 1..m |-> 0]
 \* L: set of index tuples of length m (left input); R: set of row positions of table m+1 (right input)
-JoinStep(L, R, m, type, cond, tabs) ==
-    LET M == {p \in L \X R : Holds(cond, Append(p[1], p[2]), tabs)}
+JoinStepP(L, R, m, type, Match(_)) ==
+    LET M == {p \in L \X R : Match(Append(p[1], p[2]))}
         inner == {Append(p[1], p[2]) : p \in M}
         lun == {Append(l, 0) : l \in {l \in L : \A j \in R : <<l, j>> \notin M}}
         run == {Append(Zeros(m), j) : j \in {j \in R : \A l \in L : <<l, j>> \notin M}}
@@ -92,6 +95,7 @@ JoinStep(L, R, m, type, cond, tabs) ==
          [] type = "left"  -> inner \cup lun
          [] type = "right" -> inner \cup run
          [] type = "full"  -> inner \cup lun \cup run
+JoinStep(L, R, m, type, cond, tabs) == JoinStepP(L, R, m, type, LAMBDA t : Holds(cond, t, tabs))
 
 AllRows(tabs, t) == 1..Len(tabs[t])
 Base(tabs) == {<<i>> : i \in AllRows(tabs, 1)}
@@ -144,9 +148,10 @@ ScaleLaw(q, tabs, r) == Ref(q, ScaleAll(tabs, r)) = ScaledRef(q, tabs, r)
 (* ------------------------------------------------------------------ *)
 (* named deviations (defects found in TurDB; see known_findings.d)     *)
 (*                                                                     *)
+(* hash / nested-loop operators                                        *)
 (*  on_residual_dropped   when ON contains an equality between columns *)
-(*                        of the two inputs, every other ON conjunct   *)
-(*                        is ignored                                   *)
+(*                        of the two inputs (hash join), every other   *)
+(*                        ON conjunct is ignored                       *)
 (*  where_pushed_below_outer  a WHERE whose comparisons mention only   *)
 (*                        one input is applied to that input before    *)
 (*                        the join, also on the NULL-supplying side    *)
@@ -158,67 +163,135 @@ ScaleLaw(q, tabs, r) == Ref(q, ScaleAll(tabs, r)) = ScaledRef(q, tabs, r)
 (*                        joins are projected by column NAME in table  *)
 (*                        order (first k, first v, second k, ...)      *)
 (*                        instead of by the select list                *)
-(*  inner_input_empty     (3-way) an inner equi-join used as the left  *)
-(*                        input of another join contributes no rows    *)
-(*  outer_input_as_inner  (3-way) an outer join used as the left input *)
-(*                        of another join is evaluated as an inner     *)
-(*                        join                                         *)
+(*  null_eq_null          conditions evaluated row by row (nested-loop *)
+(*                        ON, WHERE) treat two NULLs as equal values:  *)
+(*                        NULL = NULL and NULL <= NULL are TRUE        *)
+(*  reorder_drops_single_side_on  when an INNER/CROSS join is          *)
+(*                        reordered, ON conjuncts that mention only    *)
+(*                        one input are lost                           *)
+(*  reorder_drops_all_on  when an INNER join is reordered after a      *)
+(*                        one-sided WHERE was pushed into an input,    *)
+(*                        the whole ON is lost (cross product)         *)
+(* index nested-loop operator                                          *)
+(*  inl_filters_ignored   WHERE is not applied at all                  *)
+(*  inl_right_as_inner    RIGHT JOIN drops the unmatched right rows    *)
+(* left input of a 3-way join (evaluated by a separate routine)        *)
+(*  join_input_empty      the input join contributes no rows           *)
+(*  outer_input_as_inner  an outer join is evaluated as an inner join  *)
+(*  input_where_lost      a WHERE pushed onto the input join is lost   *)
 (* ------------------------------------------------------------------ *)
-KFNames == {"on_residual_dropped", "where_pushed_below_outer", "where_as_on", "right_unmatched_by_name",
-            "inner_input_empty", "outer_input_as_inner", "input_where_lost"}
+KFHashNL == {"on_residual_dropped", "where_pushed_below_outer", "where_as_on", "right_unmatched_by_name", "null_eq_null",
+             "reorder_drops_single_side_on", "reorder_drops_all_on"}
+KFIndex == {"inl_filters_ignored", "inl_right_as_inner"}
+KFInput == {"join_input_empty", "outer_input_as_inner", "input_where_lost", "inner_chain_conjuncts_dropped"}
+KFNames == KFHashNL \cup KFIndex \cup KFInput
 
-IsEqui(a, lt, rt) == /\ a.op = "eq" /\ a.l.t # 0 /\ a.r.t # 0
-                     /\ ((a.l.t \in lt /\ a.r.t \in rt) \/ (a.l.t \in rt /\ a.r.t \in lt))
+\* tables whose columns a comparison mentions (IS [NOT] NULL is not looked into: that is what the optimizer rules do)
+AtomTables(a) == IF a.op \in {"isnull", "notnull"} THEN {} ELSE ({a.l.t, a.r.t} \ {0})
+Spans(a, lt, rt) == AtomTables(a) \cap lt # {} /\ AtomTables(a) \cap rt # {}
+IsEqui(a, lt, rt) == a.op = "eq" /\ a.l.t # 0 /\ a.r.t # 0 /\ Spans(a, lt, rt)
 HasEqui(on, lt, rt) == \E i \in DOMAIN on : IsEqui(on[i], lt, rt)
 EquiOnly(on, lt, rt) == SelectSeq(on, LAMBDA a : IsEqui(a, lt, rt))
-\* tables mentioned by the comparisons of a conjunction (IS [NOT] NULL is not looked into: that is what the code does)
-CmpTables(atoms) == UNION {IF atoms[i].op \in {"isnull", "notnull"} THEN {}
-                           ELSE ({atoms[i].l.t, atoms[i].r.t} \ {0}) : i \in DOMAIN atoms}
+SpanOnly(on, lt, rt) == SelectSeq(on, LAMBDA a : Spans(a, lt, rt))
+CmpTables(atoms) == UNION {AtomTables(atoms[i]) : i \in DOMAIN atoms}
 OnOf(on, kf, lt, rt) == IF "on_residual_dropped" \in kf /\ HasEqui(on, lt, rt) THEN EquiOnly(on, lt, rt) ELSE on
 
 \* a tuple that has only table t populated with row i (to evaluate a single-table condition on an input row)
 Solo(m, t, i) == [x \in 1..m |-> IF x = t THEN i ELSE 0]
 
-ImplTuples(q, kf, tabs) ==
-    LET wt == CmpTables(q.where)
+\* what the optimizer does first, and rightly so (the reference gives the same answer for both forms, see CrossSize):
+\* equalities between the two sides found in the WHERE of a CROSS / comma join become the ON of an INNER join
+Norm(q0) ==
+    LET top(q) == IF q.n = 2 THEN q.j1 ELSE q.j2
+        lts(q) == 1..(q.n - 1)
+        q1 == IF top(q0) \in {"cross", "comma"} /\ HasEqui(q0.where, lts(q0), {q0.n})
+              THEN (IF q0.n = 2
+                    THEN [q0 EXCEPT !.j1 = "inner", !.on1 = EquiOnly(q0.where, {1}, {2}),
+                                    !.where = SelectSeq(q0.where, LAMBDA a : ~IsEqui(a, {1}, {2}))]
+                    ELSE [q0 EXCEPT !.j2 = "inner", !.on2 = EquiOnly(q0.where, {1, 2}, {3}),
+                                    !.where = SelectSeq(q0.where, LAMBDA a : ~IsEqui(a, {1, 2}, {3}))])
+              ELSE q0
+    IN IF q1.n = 3 /\ q1.j1 \in {"cross", "comma"} /\ CmpTables(q1.where) \subseteq {1, 2} /\ HasEqui(q1.where, {1}, {2})
+       THEN [q1 EXCEPT !.j1 = "inner", !.on1 = EquiOnly(q1.where, {1}, {2}),
+                       !.where = SelectSeq(q1.where, LAMBDA a : ~IsEqui(a, {1}, {2}))]
+       ELSE q1
+
+ImplEval(q0, kf, tabs) ==
+    LET q == Norm(q0)
+        nn == "null_eq_null" \in kf
         last == q.n                               \* the table joined by the top-level join
         lts == 1..(last - 1)
-        \* WHERE goes below the top-level join when it only mentions its right input or only its left input
-        pushR == "where_pushed_below_outer" \in kf /\ wt # {} /\ wt \subseteq {last}
-        pushL == "where_pushed_below_outer" \in kf /\ wt # {} /\ wt \subseteq lts
-        whereTop == IF pushR \/ pushL THEN <<>> ELSE q.where
+        jt0 == IF q.n = 2 THEN q.j1 ELSE q.j2
+        on0 == IF q.n = 2 THEN q.on1 ELSE q.on2
+        innerish == jt0 \in {"inner", "cross", "comma"}
+        where0 == IF "inl_filters_ignored" \in kf THEN <<>> ELSE q.where
+        wt == CmpTables(where0)
+        single == wt # {} /\ (wt \subseteq {last} \/ wt \subseteq lts)
+        \* a one-sided WHERE goes below the top-level join (harmless for inner joins, a deviation below outer joins)
+        pushed == single /\ (innerish \/ "where_pushed_below_outer" \in kf)
+        pushR == pushed /\ wt \subseteq {last}
+        pushL == pushed /\ wt \subseteq lts
+        whereTop == IF pushed THEN <<>> ELSE where0
         asOn == "where_as_on" \in kf
-        Rtop == IF pushR THEN {j \in AllRows(tabs, last) : Holds(q.where, Solo(q.n, last, j), tabs)}
+        Rtop == IF pushR THEN {j \in AllRows(tabs, last) : HoldsX(where0, Solo(q.n, last, j), tabs, nn)}
                 ELSE AllRows(tabs, last)
-        \* first join of a 3-way query = the left input of the top-level join
-        j1eff == IF q.n = 3 /\ "outer_input_as_inner" \in kf /\ q.j1 \in {"left", "right", "full"} THEN "inner" ELSE q.j1
-        s1raw == JoinStep(Base(tabs), AllRows(tabs, 2), 1, j1eff, OnOf(q.on1, kf, {1}, {2}), tabs)
-        s1 == IF q.n = 3 /\ "inner_input_empty" \in kf /\ q.j1 \in {"inner", "comma"} /\ HasEqui(q.on1, {1}, {2})
-                THEN {} ELSE s1raw
+        \* ---- first join of a 3-way query = the left input of the top-level join
+        j1eff == IF "outer_input_as_inner" \in kf /\ q.j1 \in {"left", "right", "full"} THEN "inner" ELSE q.j1
+        on1eff == OnOf(q.on1, kf, {1}, {2})
+        nn1 == nn /\ ~HasEqui(on1eff, {1}, {2})
+        s1 == IF "join_input_empty" \in kf THEN {}
+              ELSE JoinStepP(Base(tabs), AllRows(tabs, 2), 1, j1eff, LAMBDA t : HoldsX(on1eff, t, tabs, nn1))
         Ltop == IF q.n = 2
-                  THEN (IF pushL THEN {t \in Base(tabs) : Holds(q.where, <<t[1], 0>>, tabs)} ELSE Base(tabs))
-                  ELSE (IF pushL /\ "input_where_lost" \notin kf THEN {t \in s1 : Holds(q.where, Append(t, 0), tabs)} ELSE s1)
-        jt == IF q.n = 2 THEN q.j1 ELSE q.j2
-        ont == IF q.n = 2 THEN OnOf(q.on1, kf, {1}, {2}) ELSE OnOf(q.on2, kf, {1, 2}, {3})
-        cond == IF asOn THEN ont \o whereTop ELSE ont
-        top == JoinStep(Ltop, Rtop, q.n - 1, jt, cond, tabs)
-    IN IF asOn THEN top ELSE {t \in top : Holds(whereTop, t, tabs)}
+                  THEN (IF pushL THEN {t \in Base(tabs) : HoldsX(where0, <<t[1], 0>>, tabs, nn)} ELSE Base(tabs))
+                  ELSE (IF pushL /\ "input_where_lost" \notin kf THEN {t \in s1 : HoldsX(where0, Append(t, 0), tabs, nn)} ELSE s1)
+        \* ---- the top-level join
+        reorderAll == "reorder_drops_all_on" \in kf /\ innerish /\ single
+        onA == IF reorderAll THEN <<>>
+               ELSE IF "reorder_drops_single_side_on" \in kf /\ innerish THEN SpanOnly(on0, lts, {last}) ELSE on0
+        onB == OnOf(onA, kf, lts, {last})
+        nnOn == nn /\ ~HasEqui(onB, lts, {last})      \* hash keys never match on NULL; row-by-row evaluation does
+        jt == IF "inl_right_as_inner" \in kf /\ jt0 = "right" THEN "inner" ELSE jt0
+        top == JoinStepP(Ltop, Rtop, q.n - 1, jt,
+                         LAMBDA t : HoldsX(onB, t, tabs, nnOn) /\ (asOn => HoldsX(whereTop, t, tabs, nn)))
+    IN [lempty |-> Ltop = {}, S |-> IF asOn THEN top ELSE {t \in top : HoldsX(whereTop, t, tabs, nn)}]
+ImplTuples(q, kf, tabs) == ImplEval(q, kf, tabs).S
 
-\* projection of the deviation right_unmatched_by_name: the i-th output column takes the value of the
-\* occ-th column with that NAME in table order, occ = number of earlier output columns with the same name
+\* projection of the deviation right_unmatched_by_name: for the NULL-extended rows of a RIGHT / FULL join the i-th
+\* output column takes the value of the occ-th column with that NAME in table order (occ = number of earlier output
+\* columns with the same name).  In a 3-way join whose left input came out empty the positions are computed as if the
+\* left input had no columns: with a column map of the input (nested-loop / grace-hash input) the first and third
+\* occurrence of a name read the third table and the second reads nothing; without one (input not evaluated at all)
+\* the first occurrence reads the third table and every other output column reads its first column.
 NameOcc(q, i) == Cardinality({j \in 1..(i - 1) : q.proj[j].c = q.proj[i].c})
 ByNameOp(q, i) == ColOp(NameOcc(q, i) + 1, q.proj[i].c)
-ImplProjRow(q, kf, tup, tabs) ==
+ImplProjRow(q, kf, tup, tabs, lempty) ==
     IF /\ "right_unmatched_by_name" \in kf
        /\ (IF q.n = 2 THEN q.j1 ELSE q.j2) \in {"right", "full"}
        /\ \A t \in 1..(q.n - 1) : tup[t] = 0
-    THEN [i \in DOMAIN q.proj |-> IF NameOcc(q, i) + 1 <= q.n THEN OpVal(ByNameOp(q, i), tup, tabs) ELSE N]
+    THEN IF q.n = 3 /\ lempty
+         THEN [i \in DOMAIN q.proj |->
+                 LET occ == NameOcc(q, i)
+                 IN IF "join_input_empty" \in kf
+                    THEN (IF occ = 0 THEN ColVal(tup, tabs, 3, q.proj[i].c) ELSE ColVal(tup, tabs, 3, "k"))
+                    ELSE (IF occ \in {0, 2} THEN ColVal(tup, tabs, 3, q.proj[i].c) ELSE IF occ = 1 THEN N ELSE ColVal(tup, tabs, 3, "k"))]
+         ELSE [i \in DOMAIN q.proj |-> IF NameOcc(q, i) + 1 <= q.n THEN OpVal(ByNameOp(q, i), tup, tabs) ELSE N]
     ELSE ProjRow(q, tup, tabs)
-ImplBagOf(q, kf, S, tabs, r) ==
-    LET rows == {ImplProjRow(q, kf, t, tabs) : t \in S}
+\* bag with multiplicities on tables scaled by r (a tuple in which s tables take part counts r^s times)
+BagOfX(q, kf, S, tabs, r, lempty) ==
+    LET rows == {ImplProjRow(q, kf, t, tabs, lempty) : t \in S}
         RECURSIVE Sum(_)
         Sum(T) == IF T = {} THEN 0 ELSE LET t == CHOOSE t \in T : TRUE IN Pow(r, Parts(t)) + Sum(T \ {t})
-    IN {[r |-> x, n |-> Sum({t \in S : ImplProjRow(q, kf, t, tabs) = x})] : x \in rows}
+    IN {[r |-> x, n |-> Sum({t \in S : ImplProjRow(q, kf, t, tabs, lempty) = x})] : x \in rows}
 \* answer with deviations kf on tables scaled by r (r = 1: the plain tables)
-Impl(q, kf, tabs, r) == ImplBagOf(q, kf, ImplTuples(q, kf, tabs), tabs, r)
+Impl(q, kf, tabs, r) == LET e == ImplEval(q, kf, tabs) IN BagOfX(q, kf, e.S, tabs, r, e.lempty)
+
+\* inner_chain_conjuncts_dropped (3-way chains of INNER / CROSS / comma joins): the answer is that of the query with
+\* the set D of its ON / WHERE conjuncts removed (which ones depends on the order the optimizer picks from the table
+\* sizes and on where it pushed the WHERE)
+ChainAtoms(q) == q.on1 \o q.on2 \o q.where
+ChainTuples(q, D, nn, tabs) ==
+    LET at == ChainAtoms(q)
+    IN {t \in {<<i, j, l>> : i \in AllRows(tabs, 1), j \in AllRows(tabs, 2), l \in AllRows(tabs, 3)} :
+           \A x \in (DOMAIN at) \ D : Truth(at[x], t, tabs, nn) = "T"}
+IsInnerChain(q) == q.n = 3 /\ q.j1 \in {"inner", "cross", "comma"} /\ q.j2 \in {"inner", "cross", "comma"}
 =============================================================================
